@@ -127,6 +127,24 @@ func init() {
 }
 
 func runEval(hdr Header, c any, src string) CaseResult {
+	res := runEvalCase(hdr, c, src)
+	// a case may name the known finding its universe exhibits (feat): every failure on it carries the name, and
+	// the instance is the kind of failure with what was observed (numbers blanked)
+	if fs := abs.Seq(abs.Obj(c)["feat"]); len(fs) > 0 {
+		for i := range res.Failures {
+			for _, f := range fs {
+				res.Failures[i].Features = append(res.Failures[i].Features, f.(string))
+			}
+			res.Failures[i].Instance = numRun.ReplaceAllString(fmt.Sprint(res.Failures[i].Got), "#")
+			if len(res.Failures[i].Instance) > 200 {
+				res.Failures[i].Instance = res.Failures[i].Instance[:200]
+			}
+		}
+	}
+	return res
+}
+
+func runEvalCase(hdr Header, c any, src string) CaseResult {
 	cm := abs.Obj(c)
 	insts := abs.Seq(hdr["INSTS"])
 	if li, ok := cm["insts"]; ok { // a case may carry its own instances
